@@ -387,14 +387,26 @@ Lemma single_extender_unprotected_l : forall {A} h order e (w : result A), match
 Proof. intros A h order e w H. unfold run_wrapped. rewrite H. reflexivity. Qed.
 
 (* ---------- plans ---------- *)
-Lemma run_calls_pass_l : forall order cs, (forall e, In e order -> beh e = Pass) ->
-  run_calls order cs =
+Lemma run_ideal_l : forall {A} h order (a : A), kf_raise_after (matching h order) = false ->
+  run_wrapped h order (wrapped (Ok a)) = ideal_run_wrapped h order (Ok a).
+Proof.
+  intros A h order a Hk. destruct (matching h order) as [|x [|y r]] eqn:Em.
+  - unfold run_wrapped, ideal_run_wrapped. rewrite Em. reflexivity.
+  - unfold run_wrapped, ideal_run_wrapped. rewrite Em. reflexivity.
+  - rewrite chain_run_ideal_l; [| rewrite Em; cbn; lia | rewrite Em; exact Hk].
+    unfold ideal_run_wrapped. rewrite chain_order_eq, Em. reflexivity.
+Qed.
+
+Lemma run_calls_pass_l : forall order fails cs, (forall e, In e order -> beh e = Pass) ->
+  (forall c, In c cs -> fails c = false) ->
+  run_calls order fails cs =
   (map (fun c => (c, passthrough_trace (map eid (chain_order (kind_hook (snd c)) order)))) cs, false).
 Proof.
-  intros order cs Hall. induction cs as [|c r IH]; [reflexivity|]. cbn [run_calls map].
+  intros order fails cs Hall. induction cs as [|c r IH]; intros Hf; [reflexivity|]. cbn [run_calls map].
   destruct (passthrough_transparent_l (kind_hook (snd c)) order tt) as [Hrun _].
   { intros e He. apply Hall. unfold matching in He. apply filter_In in He. tauto. }
-  rewrite Hrun, IH. reflexivity.
+  unfold call_result. rewrite (Hf c (or_introl eq_refl)). rewrite Hrun, IH; [reflexivity|].
+  intros c' Hc'. apply Hf. right; exact Hc'.
 Qed.
 
 Lemma passthrough_enters : forall ids i, enters i (passthrough_trace ids) = List.length (filter (Nat.eqb i) ids).
@@ -406,12 +418,13 @@ Proof.
   destruct (Nat.eqb i j); cbn [List.length]; rewrite IH; lia.
 Qed.
 
-Lemma every_declared_call_seen_l : forall order cs e c t,
-  (forall x, In x order -> beh x = Pass) -> NoDup (map eid order) -> In e order ->
-  In (c, t) (fst (run_calls order cs)) ->
+Lemma every_declared_call_seen_l : forall order fails cs e c t,
+  (forall x, In x order -> beh x = Pass) -> (forall c, In c cs -> fails c = false) ->
+  NoDup (map eid order) -> In e order ->
+  In (c, t) (fst (run_calls order fails cs)) ->
   enters (eid e) t = if declares e c then 1 else 0.
 Proof.
-  intros order cs e c t Hall Hnd He Hin. rewrite run_calls_pass_l in Hin by exact Hall. cbn [fst] in Hin.
+  intros order fails cs e c t Hall Hf Hnd He Hin. rewrite run_calls_pass_l in Hin by assumption. cbn [fst] in Hin.
   apply in_map_iff in Hin. destruct Hin as [c' [Heq _]]. inversion Heq; subst c' t. clear Heq.
   rewrite passthrough_enters, chain_order_eq. unfold declares.
   set (h := kind_hook (snd c)).
@@ -424,10 +437,11 @@ Proof.
   rewrite Hl. unfold matching. apply filter_occ_one; assumption.
 Qed.
 
-Lemma all_calls_run_l : forall order cs, (forall e, In e order -> beh e = Pass) ->
-  map fst (fst (run_calls order cs)) = cs /\ snd (run_calls order cs) = false.
+Lemma all_calls_run_l : forall order fails cs, (forall e, In e order -> beh e = Pass) ->
+  (forall c, In c cs -> fails c = false) ->
+  map fst (fst (run_calls order fails cs)) = cs /\ snd (run_calls order fails cs) = false.
 Proof.
-  intros order cs Hall. rewrite run_calls_pass_l by exact Hall. cbn [fst snd]. split; [|reflexivity].
+  intros order fails cs Hall Hf. rewrite run_calls_pass_l by assumption. cbn [fst snd]. split; [|reflexivity].
   rewrite map_map. cbn [fst]. apply map_id.
 Qed.
 
